@@ -17,7 +17,7 @@ LEVEL = 'proof'
 MODULES = ['Pysmi.Props.C20', 'Pysmi.Props.C07', 'Pysmi.Props.C13', 'Pysmi.Pins.SkelC20']
 LAKE_TARGETS = ['Pysmi.Props.C20', 'Pysmi.Props.C07', 'Pysmi.Props.C13', 'Pysmi.Pins.SkelC20']
 THEOREMS = ['Pysmi.Pins.SkelC20.pin_mibdumpScript', 'Pysmi.Pins.SkelC20.pin_mibcopyScript', 'Pysmi.Cli.C20_exit', 'Pysmi.Cli.C20_report', 'Pysmi.Cli.C20_report_once', 'Pysmi.Cli.C20_mibcopy_latest', 'Pysmi.Cli.C20_mibcopy_provenance',
-            'Pysmi.Cli.C20_mibcopy_order_irrelevant', 'Pysmi.Cli.C20_mibcopy_dry_run', 'Pysmi.Cli.C20_mibcopy_dry_report', 'Pysmi.Cli.C20_mibcopy_dry', 'Pysmi.Cli.C20_mibcopy_epoch_witness', 'Pysmi.Cli.mibcopy_dst', 'Pysmi.Cli.C20_revision_latest', 'Pysmi.Cli.C20_revision_order_irrelevant', 'Pysmi.Cli.C20_borrowers_in_order', 'Pysmi.Cli.C20_borrower_flavour',
+            'Pysmi.Cli.C20_mibcopy_order_irrelevant', 'Pysmi.Cli.C20_mibcopy_dry_run', 'Pysmi.Cli.C20_mibcopy_dry_report', 'Pysmi.Cli.C20_mibcopy_dry', 'Pysmi.Cli.C20_mibcopy_epoch_witness', 'Pysmi.Cli.mibcopy_dst', 'Pysmi.Cli.C20_revision_latest', 'Pysmi.Cli.C20_revision_order_irrelevant', 'Pysmi.Cli.C20_later_edition_newer', 'Pysmi.Cli.C20_borrowers_in_order', 'Pysmi.Cli.C20_borrower_flavour',
             'Pysmi.Generated.Cli.pin_exit_codes', 'Pysmi.Generated.Cli.pin_absent_revision', 'Pysmi.Generated.Cli.C20_exit_generated', 'Pysmi.Generated.Cli.C20_index_guard', 'Pysmi.Generated.Cli.C20_run_generated',
             'Pysmi.Compile.C07_written_iff_reported_partial', 'Pysmi.Writer.C13_atomic', 'Pysmi.Writer.C13_dryrun']
 TECHNIQUE = ('Lean 4 theorems about a model of mibdump\'s exit code and report as functions of the status map (exit codes regenerated from '
@@ -29,7 +29,7 @@ TECHNIQUE = ('Lean 4 theorems about a model of mibdump\'s exit code and report a
 LEVEL_TEXT = ('Proved in Lean: exit status 0 iff no module is missing or failed; a module is reported under exactly the category of its '
               'status; after mibcopy\'s loop every module seen is in the destination with a revision at least as new as every source seen; a dry run of mibcopy leaves the destination alone and takes every copy / do-not-copy decision of the real run (C20_mibcopy_dry_run, C20_mibcopy_dry_report), '
               'what is stored is a file seen or what was there before, and the stored revision does not depend on the visiting order - for '
-              'every list of sources and every initial destination (the script\'s cache is proved to mirror the destination); the revision of a module is the latest of its REVISION clauses in whatever order they stand (C20_revision_latest, C20_revision_order_irrelevant; compared with the compiler\'s report on generated modules). The files-on-disk '
+              'every list of sources and every initial destination (the script\'s cache is proved to mirror the destination); the revision of a module is the latest of its REVISION clauses in whatever order they stand (C20_revision_latest, C20_revision_order_irrelevant, C20_later_edition_newer: an edition with one clause later than all clauses of another is the newer one however it writes its history; compared with the compiler\'s report on generated modules). The files-on-disk '
               'part rests on C07_written_iff_reported and C13_atomic / C13_dryrun for the library. the borrower repositories of a command line are filed in order, each with the flavour --generate-mib-texts has given the run before it (C20_borrowers_in_order, C20_borrower_flavour; the library run is wired with exactly these). Exercised, not modelled (partial): the rest of option '
               'parsing, the wiring of readers / searchers / writers in the scripts, revision extraction through a JSON compile, os.walk order, '
               'shutil.copy.')
